@@ -184,7 +184,7 @@ pub fn hss_finalize_aux_data<H: HashChain>(data: &mut MutableExpandedAuxData, se
 
     let mut hasher = compute_hmac_ipad::<H>(&aux_seed).chain(data.level.to_be_bytes());
 
-    for i in 0..MAX_TREE_HEIGHT {
+    for i in 0..=MAX_TREE_HEIGHT {
         if let Some(x) = data.data[i].as_mut() {
             hasher.update(x);
         }
